@@ -337,6 +337,32 @@ func diskTwinP2(s *scen.P2Set, start *envfs.FS, o *scen.P2Obs, c *p2Case, r *cor
 	defer os.RemoveAll(root)
 	materialize(root, start.Files)
 	index := filepath.Join(root, s.Index)
+	// run from another directory that holds intact look-alikes of every file of the set at the same relative names:
+	// nothing may be resolved against the working directory, and it must stay as it is
+	decoy := root + "-cwd"
+	os.RemoveAll(decoy)
+	defer os.RemoveAll(decoy)
+	dec := map[string][]byte{}
+	if s.FS0 != nil {
+		for p, b := range s.FS0.Files {
+			dec[strings.TrimPrefix(p, s.Dir)] = b
+		}
+	} else {
+		// sets built by hand (C19): the starting directory itself serves as the look-alike
+		for p, b := range start.Files {
+			dec[strings.TrimPrefix(p, filepath.Dir(s.Index))] = b
+		}
+	}
+	materialize(decoy, dec)
+	decoyBefore := readTree(decoy)
+	oldwd, _ := os.Getwd()
+	os.Chdir(decoy)
+	defer os.Chdir(oldwd)
+	defer func() {
+		if d := envfs.Diff(readTree(decoy), decoyBefore); len(d) > 0 {
+			r.Violatef("disk-run-touched-the-working-directory", "the working directory (not the set's) changed: %v", d)
+		}
+	}()
 	g := c.G
 	if g <= 0 {
 		g = 1
